@@ -713,7 +713,9 @@ impl<'r> Renderer<'r> {
                 // needs white space before it (an apostrophe glued to a word belongs to the word)
                 self.glue_next = false;
                 self.push_raw(" ");
-                self.record(TokKind::Symbol, "'n'");
+                // (a keyword like any other: upper case when the spelling varies case)
+                let upper = self.sp.vary_case && self.rng.coin();
+                self.record(TokKind::Symbol, if upper { "'N'" } else { "'n'" });
             }
             _ => self.kw(Kw::And),
         }
